@@ -612,6 +612,23 @@ func genRolloutWorld(c *Ctx) rsWorld {
 		}
 		steps = append(steps, st)
 	}
+	bigPlan := false
+	if !pcts && c.Rng.Intn(15) == 0 {
+		// focused stream: a large workload whose plan is written in absolute numbers that look like percentages
+		// (a last step of exactly / more than 100 pods out of 150 or 300 is NOT a full release)
+		bigPlan = true
+		R = []int{150, 300}[c.Rng.Intn(2)]
+		acc = 0
+		for i := range steps {
+			acc += 10 + c.Rng.Intn(60)
+			if i == len(steps)-1 {
+				acc = []int{100, 100, 120, R}[c.Rng.Intn(4)]
+			} else if acc >= 100 {
+				acc = 99
+			}
+			steps[i].Replicas = J{"i": acc}
+		}
+	}
 	ro := rsRollout{Style: style, Steps: steps, Paused: c.Rng.Intn(10) == 0, Disabled: c.Rng.Intn(14) == 0, Deleting: c.Rng.Intn(10) == 0,
 		HasFinalizer: c.Rng.Intn(8) != 0, HasTraffic: hasTraffic, DisableGen: c.Rng.Intn(8) == 0,
 		RollbackInBatch: c.Rng.Intn(10) == 0, Grace: []int{trLongGrace, trLongGrace, 0}[c.Rng.Intn(3)], CondAge: pickS(c, "elapsed", "elapsed", "fresh")}
@@ -644,6 +661,9 @@ func genRolloutWorld(c *Ctx) rsWorld {
 			s.NextIdx = pickInt(c, 0, -5, nsteps+1, nsteps+7) // illegal values a user can patch in
 		}
 		s.State = pickS(c, "init", "upgrade", "upgrade", "trafficRouting", "trafficRouting", "metricsAnalysis", "paused", "paused", "ready", "ready", "completed", "other")
+		if bigPlan && c.Rng.Intn(2) == 0 {
+			s.CurIdx, s.NextIdx, s.State = nsteps, -1, "paused"
+		}
 		s.FinStep = "empty"
 		if ro.Reason == "Finalising" || ro.Reason == "Cancelling" || ro.Phase == "Terminating" || ro.Phase == "Disabling" || c.Rng.Intn(10) == 0 {
 			s.FinStep = pickS(c, "empty", "resumeWorkload", "releaseWorkloadControl", "routeTrafficToStable", "restoreStableService", "removeCanaryService", "routeTrafficToNew", "end_", "other")
